@@ -23,7 +23,7 @@ Chain(twoA) ==
                        RMul(c, "1.00000000000000022204"), RMul(c, "1.00000000000090949470"), RMul(c, "1.0009765625"), RMul(c, "1.5") >>
        bulk == [t \in 1..97 |-> RAdd(a, RMul(RDiv(t - 17, 2), sa))]          \* a + t sqrt a, t = -8 .. 40 step 1/2
        far == << RMul(a, 2), RMul(a, 3), RMul(a, 5), RMul(a, 10), RAdd(a, 690), RAdd(a, 709), RAdd(a, 745), RAdd(RMul(20, a), 200) >>
-       raw == << "-1", "0", "1e-300", "1e-30", "0.001" >> \o around("1") \o around(a) \o bulk \o far
+       raw == << "-1", "0", "1e-300", "1e-200", "1e-100", "1e-50", "1e-30", "1e-24", "1e-20", "1e-18", "1e-17", "1e-16", "1e-15", "1e-12", "1e-9", "1e-6", "1e-4", "0.001" >> \o around("1") \o around(a) \o bulk \o far
    IN [i \in 1..Len(raw) |-> IF RLt(raw[i], 0) /\ i > 2 THEN "0" ELSE raw[i]]
 
 Init == k \in {-1 - s : s \in 0..(Stride - 1)}
